@@ -1,17 +1,26 @@
 #!/usr/bin/env python3
-"""Write engine/tables/baseline_fns.json: the keys of all non-closure functions of the local crates on the current tree, over
-all build configurations.  This is the reference inventory of engine/inline.py: a function that is not in it is analysed as
-part of its callers.  Regenerate it when the rules are revised against a new upstream tree."""
+"""Write engine/tables/baseline_fns.json: the reference inventory of engine/inline.py.
+  fns:  key -> {file, sig}   all non-closure functions of the local crates, over all build configurations
+  adts: path -> [[variant, [[field, type], ..]], ..]
+A function that is not in it is analysed as part of its callers; a function/field of it that disappeared while a new one with
+the same signature/type appeared in the same place is taken to be renamed.  Regenerate when the rules are revised against a new
+upstream tree."""
 import json, os, sys
 V = os.path.dirname(os.path.dirname(os.path.abspath(__file__)))
 sys.path.insert(0, V)
 os.environ["RPX_NO_INLINE"] = "1"
 from engine import facts
 from engine.mir import Program
-keys = set()
+from engine.inline import fn_sig, fn_print
+fns, adts = {}, {}
 for cfg in ("default", "nodefault", "quic-only", "metrics-only"):
     fdir, meta = facts.produce(cfg)
     prog = Program(fdir)
-    keys |= set(k for k, f in prog.fns.items() if f.kind in ("Fn", "AssocFn"))
-json.dump(sorted(keys), open(os.path.join(V, "engine", "tables", "baseline_fns.json"), "w"), indent=0)
-print("inventory: %d functions" % len(keys))
+    for k, f in prog.fns.items():
+        if f.kind in ("Fn", "AssocFn"):
+            fns[k] = {"file": f.file, "sig": fn_sig(f), "print": fn_print(prog, f)}
+    for c in ("redproxy_rs", "milu"):
+        for a in prog.items[c]["adts"]:
+            adts[c + "::" + a["path"]] = [[v["name"], [[fl["name"], prog.types[c][fl["ty"]]["s"]] for fl in v["fields"]]] for v in a["variants"]]
+json.dump({"fns": fns, "adts": adts}, open(os.path.join(V, "engine", "tables", "baseline_fns.json"), "w"), indent=0, sort_keys=True)
+print("inventory: %d functions, %d types" % (len(fns), len(adts)))
